@@ -24,6 +24,7 @@ import (
 	"path/filepath"
 	"sort"
 	"time"
+	"verif/internal/cserve"
 
 	"verif/internal/ev"
 )
@@ -59,13 +60,32 @@ func main() {
 	}
 	xz := findXz()
 	sub := map[string]string{"round_trip": "run", "robustness": "run",
-		"wuffs_c_decoders(std/lzma,std/xz)": "NOT BUILT in this check (hookWuffsDecoders TODO; belongs to the C-level engine)"}
+		"wuffs_c_decoders(std/lzma,std/xz)": "not run (VERIF_C17_NO_WUFFS_C set)"}
 	if xz == nil {
 		fmt.Println("C17: sub-family xz-tool SKIPPED: no `xz` in PATH (conformance against an independent decoder was NOT checked)")
 		sub["xz_tool"] = "SKIPPED: no xz in PATH"
 	} else {
 		xz.selfCheck(scratch)
 		sub["xz_tool"] = "run: " + xz.path + " (" + xz.version + ")"
+	}
+
+	// Wuffs std/lzma + std/xz, generated from the working tree and compiled fresh (engine E4)
+	if os.Getenv("VERIF_C17_NO_WUFFS_C") == "" {
+		b, err := cserve.Build(scratch, []string{cserve.Plain}, []string{"lzma", "xz"})
+		if err != nil {
+			ev.Fatal("building the generated std/lzma + std/xz decoders failed: %v", err)
+		}
+		srvs, err := b.StartN(cserve.Plain, ev.Workers())
+		if err != nil {
+			ev.Fatal("starting the C state servers failed: %v", err)
+		}
+		wuffsSrv = srvs
+		defer func() {
+			for _, s := range srvs {
+				s.Close()
+			}
+		}()
+		sub["wuffs_c_decoders(std/lzma,std/xz)"] = fmt.Sprintf("run: C generated from the working tree in %.1fs, compiled in %.1fs (gcc -O2), %d server processes", b.GenSeconds, b.CompileSeconds[cserve.Plain], len(srvs))
 	}
 
 	var rt1, rt2 rtStats
@@ -93,7 +113,7 @@ func main() {
 			map[bool]string{true: " and every replacement of two non-adjacent bytes by marker values {00,01,02,5D,7F,80,E0,FF}", false: ""}[r.Thorough()])
 		as := []string{
 			"the xz tool (XZ Utils / liblzma) is the independent full LZMA/XZ decoder; its batch use is validated at start with files xz made itself (accept, split, reject-damaged)",
-			"NOT covered here: the cross-check against the Wuffs std/lzma and std/xz C decoders demanded by the property; hookWuffsDecoders is the marked place where the C-level engine will add it",
+			"the generated Wuffs std/lzma and std/xz C decoders (fresh C from the working tree, gcc -O2, through the C state server) decode every encoding of a payload <= 300000 bytes: status ok, all input consumed, output == payload",
 			"the instrumented model range encoder and the XZ walker are meters only (carry / chunk-kind / padding histograms); they never raise a violation",
 			"Encode(dst,..)/Decode(dst,..) with a non-empty dst are required to append (API doc), checked with one fixed 8-byte prefix",
 			"output bound 64*len(in)+64KiB as derived in DESIGN (theoretical ceiling ~41x for 11-bit adaptive probabilities)",
